@@ -268,12 +268,48 @@ def coupled(rc):
 
 
 
+@rule("C04.axes", "backend helpers tell `axis=None` (reduce over everything) from an empty axis tuple (reduce over nothing) by identity, never by truthiness", floor=1)
+def axes(rc):
+    """maximize([]) / marginalize([]) are identities (an empty scope difference in max-product message passing produces exactly that); the backend
+    reductions receive `axis=()` then.  `if axis:` would turn the empty tuple into None = all axes: scope and cardinalities stay, the table collapses."""
+    repo = rc.repo
+    mod = repo.module("pgmpy/utils/compat_fns.py")
+    n = 0
+    for f in mod.functions.values():
+        for prm in f.params:
+            d = f.param_default(prm)
+            if not (isinstance(d, ast.Constant) and d.value is None) or prm not in ("axis", "axes", "dim", "dims"):
+                continue
+            n += 1
+            bad = []
+            for x in walk_no_nested(f.node):
+                tests = [x.test] if isinstance(x, (ast.If, ast.IfExp, ast.While)) else ([x] if isinstance(x, ast.BoolOp) else [])
+                for t in tests:
+                    stack = [t]
+                    while stack:
+                        y = stack.pop()
+                        if isinstance(y, ast.BoolOp):
+                            stack.extend(y.values)
+                        elif isinstance(y, ast.UnaryOp) and isinstance(y.op, ast.Not):
+                            stack.append(y.operand)
+                        elif isinstance(y, ast.Name) and y.id == prm:
+                            bad.append(x)
+            rc.ob(f"compat_fns.{f.name}({prm}=None): truthiness tests of `{prm}`: {len(bad)}")
+            for x in bad:
+                rc.fail(f, x, f"compat_fns.{f.name}: `{prm}` is tested by truthiness: an EMPTY axis tuple (reduce over no axis — e.g. maximize([])) is treated like None (reduce over all axes), "
+                        "so the table collapses to a scalar while scope and cardinalities stay", construct=f"{f.name} truthiness of {prm}")
+    if n == 0:
+        raise AnalysisError("compat_fns: no reduction helper with an optional axis parameter found")
+
+
 @rule("C04.defuse", "anchored files: no parameter is accepted and ignored (generic def-use detector, triaged exemptions)", floor=2)
 def defuse(rc):
     from . import shared as _sh
     _sh.defuse_rule(rc, _sh.anchor_files("C04"))
 
 MUTANTS = [
+    dict(kind="break", name="max-empty-axis-means-all", file="pgmpy/utils/compat_fns.py", expect="C04.axes",
+         old="def max(arr, axis=None):\n    if axis is not None:\n        axis = tuple(axis)\n", new="def max(arr, axis=None):\n    axis = tuple(axis) if axis else None\n"),
     dict(kind="break", name="reduce-result-views-operand", file=DF, expect="C04.inplace",
          old="        phi.values = phi.values[tuple(slice_)]\n\n        if not inplace:", new="        phi.values = self.values[tuple(slice_)]\n\n        if not inplace:"),
     dict(kind="break", name="sum-align-by-stale-self-variables", file=DF, expect="C04.inplace",
